@@ -65,6 +65,22 @@ CHECKS = {
     technique="Python-AST-to-Lean translator regenerated each run; Lean 4 theorems (nlinarith polynomial bounds, sign lemmas); translation validation",
     design="3/C16",
     note="Monotonicity of the sinking speed across the Stokes/Dallavalle switch and the egg-vs-larvae copy equality are checked numerically on the implementation only. Float-only caveat: arcsin of 1+ulp."),
+ "C02": dict(
+    text="Proof over the integers (numpy datetime64 ticks): never NaT for num >= 1 (incl. exactly 1), first = start, last = stop to the "
+         "whole second (exactly when the span is a whole number of seconds), truncated-division spacing within 1 s of the exact even "
+         "spacing, monotone / antitone for positive / reversed spans, constant for zero spans, table order from any strictly monotone "
+         "rendering. Tie: exact integer correspondence of the real date_range on all accepted types/units; rendering monotonicity "
+         "validated against numpy every run.",
+    technique="Lean 4 theorems over Int (tdiv/fdiv arithmetic, omega/nlinarith); exact differential correspondence",
+    design="3/C02"),
+ "C04": dict(
+    text="Proof: constants repeated, lists verbatim, ranges in [lo,hi] and affine in the draw, gaussian within [min,max] for every "
+         "normal draw (correct argument order) with the upper-bound-only partial theorem and a proved counter-witness for the order the "
+         "code uses, exponential in [0,max], piecewise within the knot range / monotone / hitting knots (general np.interp lemmas), every "
+         "form yields num values. Tie: bit-exact correspondence of get_attr with recorded draws (the harness determines which clip order "
+         "the code matches). The gaussian lower bound is a KNOWN FINDING (snapshot-pinned).",
+    technique="Lean 4 theorems (decision logic, bounds, interpolation lemmas) with a variant parameter for the known defect; differential correspondence",
+    design="3/C04"),
 }
 
 def main():
